@@ -1,7 +1,7 @@
 //! Shared driver of the end-to-end checks C01, C02, C03 (and reused by C07/C15): generate (G1) → read →
 //! configure (G2) → solve through the CLI path → replay with O1 → report the issues of one property.
 
-use crate::pragen::{GenCfg, PragProblem, generate};
+use crate::pragen::{GenCfg, PragProblem, generate_with_grid};
 use crate::replay::{PProblem, Report, replay_parsed};
 use crate::rng::{Rng, mix};
 use crate::run::{Run, clip, par_for};
@@ -111,6 +111,31 @@ pub fn derive_relations(rng: &mut Rng, p: &PProblem, rep: &Report) -> Vec<Value>
     rels
 }
 
+/// Routing data of a problem read without matrices, as the solver sees it (unscaled, per declared profile).
+pub fn matrices_from_transport(problem: &Problem, doc: &Value) -> Vec<Value> {
+    use vrp_core::models::common::Profile;
+    let n = PProblem::parse(doc, &[]).map(|p| p.locmap.len()).unwrap_or(0);
+    doc["fleet"]["profiles"]
+        .as_array()
+        .into_iter()
+        .flatten()
+        .enumerate()
+        .map(|(k, p)| {
+            let profile = Profile::new(k, None);
+            let mut times = Vec::with_capacity(n * n);
+            let mut dists = Vec::with_capacity(n * n);
+            for a in 0..n {
+                for b in 0..n {
+                    // the approximation is integral (the matrix model holds integers); keep integers in the document
+                    times.push(problem.transport.duration_approx(&profile, a, b).round() as i64);
+                    dists.push(problem.transport.distance_approx(&profile, a, b).round() as i64);
+                }
+            }
+            json!({"profile": p["name"], "travelTimes": times, "distances": dists})
+        })
+        .collect()
+}
+
 pub struct SolveResult {
     pub solution: Value,
     pub report: Report,
@@ -198,10 +223,24 @@ pub fn run_end_to_end(run: &Run, prop: &'static str) {
         let case_seed = mix(run.seed, i);
         let mut rng = Rng::new(case_seed);
         let gcfg = gen_cfg_for(prop, &mut rng, thorough);
-        let gp = generate(&mut rng, &gcfg);
+        let (mut gp, grid) = generate_with_grid(&mut rng, &gcfg);
+        // a share of the cases uses geo coordinates without matrices: the reader builds its approximation and O1 is
+        // given exactly those numbers (read back from the provider, which C16 checks independently)
+        let coord_share = if prop == "C03" { 0.25 } else { 0.12 };
+        let as_coordinates = rng.chance(coord_share);
+        if as_coordinates {
+            if let Some(c) = gp.to_coordinates(&grid) {
+                gp = c;
+            }
+        }
         let (config, shape) = gen_config(&mut rng, max_gens, None);
         let problem = match read_problem(&gp) {
-            ReadOutcome::Ok(p) => p,
+            ReadOutcome::Ok(p) => {
+                if gp.has("coordinates") {
+                    gp.matrices = matrices_from_transport(&p, &gp.problem);
+                }
+                p
+            }
             ReadOutcome::Err(codes, _) => {
                 run.inconclusive(&format!("generated problem rejected by reader: {codes:?}"));
                 return;
